@@ -392,7 +392,14 @@ def run(ctx: Ctx) -> int:
                 n_sites += 1
                 if kind == "D":
                     ok = cf and not ct
-                    ctx.oblige("C01.e", ok, node, "deserialising conversion runs only when serialize is false" if ok else f"deserialising conversion {src(node, 50)} can run while serialising (serialize=True reachable: {ct}, serialize=False reachable: {cf})", fn=fn)
+                    if cf and ct:
+                        # a normalisation: only for values not yet of the target class, whatever the direction
+                        # (when serialising, the serialising conversion of the arm follows)
+                        from .util import guard_atoms as _ga
+
+                        if any(isinstance(t, ast.Call) and call_leaf(t) == "is_value_of_type" and pol is False for t, pol in _ga(node, stop=fn)):
+                            ok = True
+                    ctx.oblige("C01.e", ok, node, ("deserialising conversion runs only when serialize is false" if not ct else "normalising conversion: runs in both directions, only for values not yet of the registered class") if ok else f"deserialising conversion {src(node, 50)} can run while serialising (serialize=True reachable: {ct}, serialize=False reachable: {cf})", fn=fn)
                 else:
                     ok = ct and not cf
                     ctx.oblige("C01.e", ok, node, "serialising conversion runs only when serialize is true" if ok else f"serialising conversion {src(node, 50)} can run while parsing (serialize=True reachable: {ct}, serialize=False reachable: {cf})", fn=fn)
@@ -402,6 +409,33 @@ def run(ctx: Ctx) -> int:
                     if ai is not None and not (isinstance(node, ast.Call) and call_leaf(node) == "validate_annotated"):
                         (arms_D if kind == "D" else arms_S)[ai] = (arms_D if kind == "D" else arms_S).get(ai, 0) + 1
     ctx.floor("C01.e", n_sites, 14)
+    # inside a Union the members are tried in order when serialising too: a member's serializer that accepts values
+    # of ANOTHER member (int(0.5) == 0) wins silently.  The registered-type arm has to serialise only values that are
+    # of the registered class (and fail otherwise, so that the Union moves on to the member the value belongs to).
+    from .util import guard_atoms
+
+    ser_calls = [c for c in calls_in(ad) if isinstance(c.func, ast.Attribute) and c.func.attr == "serializer" and c.args]
+    ctx.need(ser_calls, "adapt_typehints: registered_type.serializer(val)")
+    for c in ser_calls:
+        atoms = guard_atoms(c, stop=ad)
+        typed = any(isinstance(t, ast.Call) and call_leaf(t) in ("is_value_of_type", "isinstance") and pol for t, pol in atoms)
+        if not typed:
+            # or: the value was normalised to the registered class first (`if not is_value_of_type(v): v = deserializer(v)`)
+            vname = c.args[0].id if isinstance(c.args[0], ast.Name) else None
+            gad_ = ctx.cfg(ad)
+            for n_ in walk_local(ad):
+                if isinstance(n_, ast.If) and not n_.orelse and isinstance(n_.test, ast.UnaryOp) and isinstance(n_.test.op, ast.Not) and isinstance(n_.test.operand, ast.Call) and call_leaf(n_.test.operand) == "is_value_of_type":
+                    asg = [s_ for s_ in n_.body if isinstance(s_, ast.Assign) and isinstance(s_.targets[0], ast.Name) and s_.targets[0].id == vname and isinstance(s_.value, ast.Call) and isinstance(s_.value.func, ast.Attribute) and s_.value.func.attr == "deserializer"]
+                    if asg and gad_.dominates(gad_.node_ids_of(n_), gad_.cn(c)):
+                        typed = True
+        ctx.oblige(
+            "C01.e",
+            typed,
+            c,
+            "the registered serializer only sees values of the registered class" if typed else "the registered serializer is applied to whatever value arrives: in Union[PositiveInt, OpenUnitInterval] the value 0.5 is written by the first member's serializer as int(0.5) = 0, and the dump no longer re-parses to the configuration it came from",
+            fn=ad,
+            construct="registered serializer sees its own class only",
+        )
     # key cast of Dict[int, ...]
     casts = [s for s in walk_local(ad) if isinstance(s, ast.Assign) and root_name(s.targets[0]) == "cast" and isinstance(s.value, ast.IfExp)]
     ok = len(casts) == 1 and isinstance(casts[0].value.test, ast.Name) and casts[0].value.test.id == "serialize" and dotted(casts[0].value.body) == "str" and dotted(casts[0].value.orelse) == "int"
